@@ -481,7 +481,16 @@ fn e2e_case(line: &str) -> String {
         let mut parent_states = vec![];
         let mut parent_ids = vec![];
         let (mut repo, snap1) = if two {
-            let n = 1 + ed.r.below(3);
+            if prune == 3 {
+                // a NEWER VERSION of base0 with the same size (other bytes, new mtime): snapshot A keeps the older one
+                let p = root.join("base0");
+                let len = fs::metadata(&p)?.len() as usize;
+                let b = rand_bytes(ed.r, len);
+                fs::write(&p, b)?;
+                let t = ed.fresh_mtime();
+                set_mtime(&p, t)?;
+            }
+            let n = if prune == 3 { ed.r.below(2) } else { 1 + ed.r.below(3) };
             for _ in 0..n { ed.step(0); }
             let st = scan_state(&root);
             let (repo, s1) = backup_dir(repo, &root, "src", None)?;
@@ -498,10 +507,15 @@ fn e2e_case(line: &str) -> String {
         ed.log.clear();
         // partly pruned parent: drop one data pack holding a chunk of a parent file, rebuild the index
         let mut pruned_pack = String::from("-");
-        if prune == 1 {
+        if prune == 1 || prune == 3 {
             let irepo = repo.to_indexed()?;
             let mut victim = None;
-            let files: Vec<&PathBuf> = parent_states[0].iter().filter(|(_, e)| e.kind == 0 && e.size > 0).map(|(p, _)| p).collect();
+            let base0 = PathBuf::from("base0");
+            let files: Vec<&PathBuf> = if prune == 3 && parent_states[0].get(&base0).is_some_and(|e| e.kind == 0) {
+                vec![&base0]       // the data pack of the newer version that only the newest parent holds
+            } else {
+                parent_states[0].iter().filter(|(_, e)| e.kind == 0 && e.size > 0).map(|(p, _)| p).collect()
+            };
             if !files.is_empty() {
                 let f = files[ed.r.below(files.len() as u64) as usize];
                 let node = irepo.node_from_path(snap1.tree, &Path::new("src").join(f))?;
@@ -544,7 +558,7 @@ fn e2e_case(line: &str) -> String {
             }
         }
         let before = scan_state(&root);
-        let nsteps = if stealth == 2 { 1 + ed.r.below(4) } else { ed.r.below(7) };
+        let nsteps = if prune == 3 { ed.r.below(3) } else if stealth == 2 { 1 + ed.r.below(4) } else { ed.r.below(7) };
         for _ in 0..nsteps { ed.step(stealth); }
         let edits = ed.log.join("+");
         let state1 = scan_state(&root);
